@@ -242,3 +242,35 @@ Definition reason (sh : bool) (r : list stmt) (x : name) : nat :=
            if Nat.eqb x y && mem x (ereads_s sh lo ++ ereads_s sh hi ++ ereads_s sh st) then 2 else 3
        | _ => 3
        end.
+
+(* ------------------------------------------------------------------------------------------ *)
+(* Regions with calls to routines (user subroutines, known or unknown body).  The analysis does not look
+   into the callee: Call.reference_accesses (call.py:277-318), non-pure routine: a Reference argument gets
+   READWRITE BEFORE its index expressions are visited (READ); any other argument is walked as an expression.
+   A READWRITE first access is not WRITE, so the variable is an input; READWRITE is a write access, so it is
+   an output.  The SEMANTICS of a call is supplied separately (the harness expands known callees and treats
+   an opaque callee as reading and writing every element of its by-reference arguments). *)
+Inductive xstmt := XCore (s : stmt) | XCall (args : list expr).
+
+Definition call_arg (sh : bool) (e : expr) : list acc :=
+  match e with
+  | EVar x => [(x, READWRITE)]
+  | EIdx a ix => (a, READWRITE) :: rdl (flat_map (ereads_s sh) ix)
+  | _ => rdl (ereads_s sh e)
+  end.
+Definition xaccs (sh : bool) (xs : list xstmt) : list acc :=
+  flat_map (fun x => match x with XCore s => saccs sh s | XCall args => flat_map (call_arg sh) args end) xs.
+Definition core_of (xs : list xstmt) : list stmt :=
+  flat_map (fun x => match x with XCore s => [s] | XCall _ => [] end) xs.
+Definition has_call (xs : list xstmt) : bool :=
+  existsb (fun x => match x with XCall _ => true | _ => false end) xs.
+
+Definition xio_agrees (c : list xstmt * bool * list name * list name) : bool :=
+  match c with (xs, sh, ins, outs) =>
+    set_eqb (inputs_of (xaccs sh xs)) ins && set_eqb (outputs_of (xaccs sh xs)) outs
+  end.
+(* reason code of a culprit x in a region with calls; [arrs] = the declared arrays *)
+Definition xreason (sh : bool) (xs : list xstmt) (arrs : list name) (x : name) : nat :=
+  if negb (wfirst x (xaccs sh xs)) then 0
+  else if mem x arrs then 1
+  else reason sh (core_of xs) x.
